@@ -1,3 +1,4 @@
+import BoolFn.Proofs.Oracle
 import BoolFn.Proofs.TableOps
 import BoolFn.Proofs.BddSubst
 /-! # C08 — Substitution is simultaneous functional composition
